@@ -465,7 +465,7 @@ def get(name, tier, seed):
     if name == "C07":
         wide = union(probes_single_ops(seed, full=False), probes_kraus(seed), probes_structural(seed, 2),
                      probes_measure(seed, 1), probes_resize(seed))
-        return {**base, "prop": "C07", "worlds": (SEEDS_W3[:2] if q else SEEDS_W3 + SEEDS_W1) + rich_seeds(1 if q else 2) + weak_seed(0 if q else 1),
+        return {**base, "prop": "C07", "worlds": ([(SEEDS_W3[0][0], SEEDS_W3[0][1], 1), SEEDS_W3[1]] if q else SEEDS_W3 + SEEDS_W1) + rich_seeds(1 if q else 2) + weak_seed(0 if q else 1),
                 "core": core, "probes": wide, "depth": 2 if q else 3}
     if name == "C09":
         w9 = (rich_seeds(1)[:1] + rich_seeds(0)[1:] + [SEEDS_W1[1]]) if q else SEEDS_W3 + SEEDS_W1 + rich_seeds(2)
